@@ -50,7 +50,8 @@ def check(run):
     T = tables.extract(gen)
     A = acteval.Actions(gen)
     run.functions += ['generated action wrappers __action0..%d of OUT_DIR/aidl.rs (from src/aidl.lalrpop)' % max(A.acts), 'ast::Range::new / Position::new (%s)' % src_line('src/ast.rs', 'pub(crate) fn new(lookup: &line_col::LineColLookup, start: usize, end: usize)'),
-                      'Diagnostic::from_parse_error (%s)' % src_line('src/diagnostic.rs', 'fn from_parse_error')]
+                      'Diagnostic::from_parse_error (%s)' % src_line('src/diagnostic.rs', 'fn from_parse_error'),
+                      'Parser::add_content (%s): which text reaches LineColLookup::new and the generated parser' % src_line('src/parser.rs', 'pub fn add_content')]
     run.bounds += ['all layouts of each production: spans are unbounded integers constrained only by token order and non-emptiness']
     run.outside += ['agreement of (line, column) with the offset and grapheme counting (line-col / unicode-segmentation are not encodable; covered natively by the layout sweep only)',
                     'ranges of diagnostics produced inside check_imports / check_declared_parcelables / check_methods (HashMap-based code)',
@@ -253,6 +254,7 @@ def check(run):
             run.violated('syntax diagnostic range', 'M', 'from_parse_error-range', {'detail': detail}, True)
     except mir.Unsupported as e:
         run.inconclusive('from_parse_error ranges', 'M', str(e))
+    source_identity_obligation(run)
 
 
 def parse_error_ranges(prog):
@@ -336,6 +338,51 @@ def boundary_obligations(run):
                      {'solver': bad[:3], 'native': [b for b in nbad if b.get('field') == 'diagnostic' or 'panic' in b.get('what', '')][:2]}, rep, queries=nq, bound='all layouts')
     else:
         run.holds('every offset handed to the line/column lookup by the %d tree-building productions is a token boundary (no computed offsets)' % nprod, 'A', queries=nq, bound='all layouts (unbounded integers)')
+
+
+def source_identity_obligation(run):
+    """the offsets the grammar actions compute are offsets into the text the parser is GIVEN, and the line/column table is built from the
+    text LineColLookup::new is GIVEN: both must be the very `content` the caller passed to add_content (symbolic execution of its MIR)"""
+    import histcheck
+    title = 'add_content hands its `content` argument itself (no trimmed / re-encoded copy) to LineColLookup::new, to the generated parser and to from_parse_error'
+    try:
+        prog = mir.Program(mir.dump_mir())
+        W = histcheck.Walker(prog)
+        add = histcheck.find_method(prog, 'add_content')
+        paths = W.run(add, [('self',), ('p', 'id'), ('p', 'content')], ('S0',))
+    except mir.Unsupported as e:
+        run.inconclusive(title, 'M', str(e)[:200]); return
+    content = ('p', 'content')
+    bad, n = [], 0
+    for conds, S2, ret in paths:
+        terms = list(conds) + [ret]
+        t = S2
+        while t[0] == 'store':
+            terms.append(t[3]); t = t[1]
+        for tt in terms:
+            for a in histcheck._apps(tt):
+                nm, args = a[1], list(a[2]) if len(a) > 2 else []
+                if nm.endswith('LineColLookup::new'):
+                    n += 1
+                    if args != [content]:
+                        bad.append('LineColLookup::new is given %s' % histcheck._show(args[0] if args else ('?',))[:80])
+                elif nm.endswith('OptAidlParser::parse') or nm.endswith('AidlParser::parse'):
+                    n += 1
+                    if not args or args[-1] != content:
+                        bad.append('the generated parser is given %s' % histcheck._show(args[-1] if args else ('?',))[:80])
+                elif nm.endswith('strip_prefix') or nm.endswith('trim') or nm.endswith('trim_start') or nm.endswith('trim_start_matches') or nm.endswith('replace'):
+                    if content in histcheck._leaves(a):
+                        bad.append('the content goes through %s before it is parsed' % nm[-40:])
+    nn, nbad = native.sweep_source_identity()
+    run.validated += nn
+    if n == 0:
+        run.inconclusive(title, 'M', 'no LineColLookup::new / parse call found on any path of add_content')
+    elif bad:
+        run.violated(title, 'M', 'source-identity', {'detail': sorted(set(bad))[:3], 'native': nbad[:2]}, bool(nbad), queries=n, detail=bad[0])
+    else:
+        run.holds(title, 'M', queries=n, bound='%d paths of add_content, every call site' % len(paths))
+        if nbad:
+            run.inconclusive('native sweep of documents behind unusual first characters', 'replay', 'discrepancy not explained by a solver verdict: %s' % str(nbad[0])[:300])
 
 
 def parse_error_obligation(run):
